@@ -45,6 +45,10 @@ impl Scheduler {
             debug!("next: {:?}", signal);
             match signal {
                 Signal::Task(task) => {
+                    // a task can be closed (skipped, aborted...) while it waits in the queue
+                    if task.state().is_completed() {
+                        return true;
+                    }
                     let ctx = &task.create_context();
                     task.exec(ctx).unwrap_or_else(|err| {
                         eprintln!("error: {err}");
